@@ -95,7 +95,7 @@ CONSTANT Ops
 
 VARIABLES lo, hi, ext, pos, phase, ty,
           op, lo2, hi2,
-          form,   \* "range" (lo..hi) or, when lo = hi, "single" (v)
+          form,   \* "range" (lo..hi); when lo = hi, "single" (v); "open_lo" (lo-1<..hi), "open_hi" (lo..<hi+1), "open_both"
           val     \* value/default positions: index of the value that is assigned; else 0
 vars == <<lo, hi, ext, pos, phase, ty, op, lo2, hi2, form, val>>
 
@@ -136,9 +136,16 @@ PickOp(o, c, d) ==
 PickExt(b) == phase = "ext" /\ ext' = b /\ phase' = "pos" /\ UNCHANGED <<lo, hi, pos, ty, form, val, op, lo2, hi2>>
 \* the values a value assignment / DEFAULT may take in this model: the finite ends of the permitted range
 Ends == IF Finite(ELo) \/ Finite(EHi) THEN {i \in {ELo, EHi} : Finite(i)} ELSE {Zero}
+OpenLoOK(i) == Finite(i) /\ Points[i][3] \in {0, 1}      \* Points[i - 1] denotes the value below
+OpenHiOK(i) == Finite(i) /\ Points[i][3] \in {-1, 0}     \* Points[i + 1] denotes the value above
+Forms == {"range", "single", "open_lo", "open_hi", "open_both"}
 PickPos(p, f, v) ==
     /\ phase = "pos"
     /\ f = "single" => (lo = hi /\ op = "none")
+    \* open range ends (X.680 51.4.2): the same permitted range lo..hi *spelled* with the neighbouring value and "<" --
+    \* possible where the neighbour is a boundary point too (the points come in triples s*2^k-1, s*2^k, s*2^k+1)
+    /\ f \in {"open_lo", "open_both"} => (op = "none" /\ OpenLoOK(lo))
+    /\ f \in {"open_hi", "open_both"} => (op = "none" /\ OpenHiOK(hi))
     /\ IF p \in ValuePositions THEN v \in Ends ELSE v = 0
     /\ pos' = p /\ form' = f /\ val' = v /\ phase' = "select"
     /\ UNCHANGED <<lo, hi, ext, ty, op, lo2, hi2>>
@@ -148,7 +155,7 @@ Select == phase = "select" /\ ty' = Narrowest(PLo, PHi) /\ phase' = "done"
 Next == \/ \E i \in 1..NPoints : PickLo(i) \/ PickHi(i)
         \/ \E o \in Ops, c, d \in 0..NPoints : PickOp(o, c, d)
         \/ \E b \in BOOLEAN : PickExt(b)
-        \/ \E p \in Positions, f \in {"range", "single"}, v \in 0..NPoints : PickPos(p, f, v)
+        \/ \E p \in Positions, f \in Forms, v \in 0..NPoints : PickPos(p, f, v)
         \/ Select
 Spec == Init /\ [][Next]_vars
 
